@@ -238,8 +238,16 @@ class Server:
             self.notify("exit")
         except (ServerDied, Timeout):
             pass
+        # the server loop ends when its input is closed
         try:
-            self.proc.wait(timeout=10)
+            if self.tcp and self.sock:
+                self.sock.shutdown(socket.SHUT_WR)
+            else:
+                self.proc.stdin.close()
+        except OSError:
+            pass
+        try:
+            self.proc.wait(timeout=5)
         except subprocess.TimeoutExpired:
             self.proc.kill()
             self.proc.wait()
